@@ -3,7 +3,7 @@ let () =
   let cmd = Sys.argv.(1) in
   let st = stream_of_file Sys.argv.(2) in
   let b = Buffer.create 65536 in
-  (match cmd with
+  (try (match cmd with
    | "net" -> Net.run st b
    | "tour" -> Tour.run st b
    | "schedcheck" -> Schedobs.run_check st b
@@ -14,6 +14,9 @@ let () =
    | "opsmodel" -> Opsmodel.run st b
    | "neighmodel" -> Neighmodel.run st b
    | "pipemodel" -> Pipemodel.run st b
-   | _ -> prerr_endline ("unknown command " ^ cmd); exit 2);
+   | "f32" -> F32ops.run st b
+   | _ -> prerr_endline ("unknown command " ^ cmd); exit 2)
+   (* a reference of the raw instance does not resolve: the loader's HashMap index / find(..).unwrap() panic *)
+   with Resolve_failed -> Buffer.add_string b "load PANIC\n");
   let oc = open_out Sys.argv.(3) in
   Buffer.output_buffer oc b; close_out oc
